@@ -84,7 +84,7 @@ impl ZVal {
     pub fn in_norm(self) -> bool { matches!(self, ZVal::MaxOk | ZVal::MinOk | ZVal::Zero) }
 }
 
-pub fn zval() -> impl Strategy<Value = ZVal> {
+pub fn zval() -> BoxedStrategy<ZVal> {
     prop_oneof![
         Just(ZVal::MaxOk),
         Just(ZVal::MinOk),
@@ -94,9 +94,10 @@ pub fn zval() -> impl Strategy<Value = ZVal> {
         Just(ZVal::Bottom),
         Just(ZVal::Zero)
     ]
+    .boxed()
 }
 
-pub fn zval_ok() -> impl Strategy<Value = ZVal> { prop_oneof![Just(ZVal::MaxOk), Just(ZVal::MinOk), Just(ZVal::Zero)] }
+pub fn zval_ok() -> BoxedStrategy<ZVal> { prop_oneof![Just(ZVal::MaxOk), Just(ZVal::MinOk), Just(ZVal::Zero)].boxed() }
 
 #[derive(Clone, Debug, PartialEq, Eq, Hash, Serialize, Deserialize)]
 pub enum ZKind {
@@ -134,7 +135,7 @@ pub struct ForgeSpec {
     pub mode: u8,
 }
 
-pub fn forge_spec(max_msg: u32, plant: impl Strategy<Value = ZVal> + Clone + 'static) -> impl Strategy<Value = ForgeSpec> {
+pub fn forge_spec(max_msg: u32, plant: BoxedStrategy<ZVal>) -> impl Strategy<Value = ForgeSpec> {
     let zkind = prop_oneof![4 => Just(ZKind::Uniform), 1 => Just(ZKind::Small), 1 => Just(ZKind::Zero), 1 => Just(ZKind::AllExtreme)];
     let hkind = prop_oneof![
         1 => Just(HKind::Empty),
@@ -469,4 +470,12 @@ pub fn rehash_t1_zero(p: &Params, t: &Tuple, sig: &[u8]) -> Option<Vec<u8>> {
     let f = rf::sig_decode(p, sig);
     let h = f.h.ok()?;
     Some(forge_fields(p, &t.pk, &t.m, &t.ctx, t.mode, &f.z, &h))
+}
+
+/// Same for the internal interface: M' is the message itself.
+pub fn rehash_t1_zero_internal(p: &Params, t: &Tuple, sig: &[u8]) -> Option<Vec<u8>> {
+    let f = rf::sig_decode(p, sig);
+    let h = f.h.ok()?;
+    let c = ctilde_for_t1_zero(p, &t.pk, &t.m, &f.z, &h);
+    Some(rf::sig_encode(p, &c, &f.z, &h))
 }
